@@ -188,7 +188,11 @@ class Mesh(Observable):
     def inDim(self):
         """dimension in which the mesh lies.\n
         A 2D mesh can be oriented in a 3D space."""
-        return self.__inDim
+        # read from the groups: moving the mesh (e.g. rotating a 2D mesh out of its plane) changes it
+        return max(
+            (groupElem.inDim for groupElem in self.__dict_groupElem.values()),
+            default=self.__inDim,
+        )
 
     def _Get_realistic_vector_magnitude(self, coef=0.1) -> float:
         """Returns a realistic vector magnitude based on the mesh size.
